@@ -25,7 +25,7 @@ LEVEL = 'proof'
 RULE = ('operation sequences over all public operations of DataFieldRecordArray (constructor from dict with '
         'keep/conversions/copy, copy, get_selection, set_selection, append, append_field, __setitem__, '
         'remove_field, rename_fields, tidy_up, sort_by_field, convert_dtypes, set_field_dtype, indices), '
-        'bounded-exhaustive over a fixed alphabet of 14 state-dependent letters: all words of length 4 over 8 letters '
+        'bounded-exhaustive over a fixed alphabet of 14 state-dependent letters: all words of length 4 over 7, length 3 over 7 and length 2 over 16 letters '
         '(quick) / length 4 over 14, length 5 over 8 and length 6 over 6 letters (thorough, words continuing after a failed step '
         'pruned), random up to length 40 on tables with 0..50 rows and 1..5 fields of dtypes '
         'int16/int32/int64/float64, plus a malformed stream (missing fields, wrong lengths, indices out of '
@@ -483,7 +483,9 @@ def history_probes(ctx, impl, site, case, op):
             ctx.violation(site, 'observer-changed-state', f'object {oi}: copy()/as_numpy_record_array changed the table',
                           case=case, predicate='observers do not modify the table')
         tw = _table_state(twin)
-        if (tw[0], tw[1], tw[2], tw[3], tw[5]) != (before[0], before[1], before[2], before[3], before[5]) or twin._indices is not None:
+        # (a table whose last field was removed keeps its length; its copy has no column to take a length from)
+        same_len = tw[3] == before[3] or not before[0]
+        if (tw[0], tw[1], tw[2], tw[5]) != (before[0], before[1], before[2], before[5]) or not same_len or twin._indices is not None:
             ctx.violation(site, 'copy-twin-differs', f'object {oi}: copy() differs from its origin', case=case,
                           impl=tw[:3], predicate='copy() is an equal, independent table')
         cols = list(o._data_fields.values()) + ([o._indices] if o._indices is not None else [])
@@ -1019,7 +1021,7 @@ def run(ctx):
         seqs += exhaustive(ctx, DFRA, ['append01', 'addcol', 'remove0', 'rename13', 'select', 'setsel0L', 'sort', 'copy'], 5, True)
         seqs += exhaustive(ctx, DFRA, ['append01', 'rename13', 'select', 'setsel0L', 'sort', 'indices'], 6, True)
     else:
-        seqs += exhaustive(ctx, DFRA, ['append01', 'addcol', 'remove0', 'rename13', 'selblock', 'setsel0L', 'sort', 'copy'], 4, False)
+        seqs += exhaustive(ctx, DFRA, ['append01', 'addcol', 'remove0', 'rename13', 'selblock', 'setsel0L', 'sort'], 4, False)
         seqs += exhaustive(ctx, DFRA, ['select', 'selblock', 'selmask', 'setsel0L', 'setselL0', 'append01', 'indices'], 3, False)
         seqs += exhaustive(ctx, DFRA, base + ['tidy', 'convert', 'append10', 'setitem1'], 2, False)
     # random
